@@ -191,6 +191,27 @@ def run(ctx) -> None:
             ctx.count("attenuated.calls")
             ctx.count("attenuated.sampling_step_history_calls")
             ctx.case(f"history|{kind}|{axis}|{'second' if tt is pair[1][0] else 'first'}")
+    # a small wiggle riding on a large offset (pressure in Pa, counts, epoch-like magnitudes): the spread is that of the
+    # wiggle, for the whole series and in windows, as standard deviation and as range
+    for _ in range(ctx.pick(60, 300)):
+        n = rng.choice([4, 9, 24, 60])
+        off = rng.choice([1e7, 2.0 ** 24, 101325.0, 2.0 ** 30, -3e6])
+        w_ = rng.choice([2.0 ** -7, 2.0 ** -5, 0.25])
+        xs = [off + (w_ if k % 2 else -w_) * rng.choice([1, 1, 0.5]) for k in range(n)]
+        kind = rng.choice(["std", "range"])
+        period = rng.choice([None, None, 180])
+        tt = gen.regular(n, 60)
+        st, ft = rng.choice([(4 * w_, w_ / 8), (w_ / 4, w_ / 16), (8 * w_, 3 * w_)])
+        kw = {"inp": gen.arr(xs), "tinp": gen.times(tt), "suspect_threshold": st, "fail_threshold": ft, "check_type": kind}
+        if period:
+            kw.update(test_period=period, min_obs=2)
+        client.expect(ctx, "C12", "qartod.attenuated_signal_test", kw,
+                      lambda: models.attenuated(xs, tt, st, ft, period, 2 if period else None, None, kind),
+                      logical={"x": xs if n <= 24 else f"{n} values {off} +- {w_}", "t": "regular 60 s", "suspect_threshold": st, "fail_threshold": ft,
+                               "test_period": period, "check_type": kind, "note": "small wiggle on a large offset"}, hist=f"attenuated.{kind}")
+        ctx.count("attenuated.calls")
+        ctx.count("attenuated.large_offset_calls")
+        ctx.case(f"large-offset|{kind}|{'window' if period else 'whole'}|{off}")
     # history: live buffers (the same ndarray / Series objects) refreshed in place between two calls with the same window
     # parameters -- each call grades what the buffers hold at that moment
     import pandas as pd  # noqa: PLC0415
